@@ -141,6 +141,7 @@ int main(int argc, char **argv) {
                               : "; seam family n=32768, chunks {2,20}, all 4096 window words at every seam; blocks family: 1 block x rep {1,50}, 2 blocks x rep 1; density family: all 256 four-digit words of gap multipliers x 300 clusters (several segments per upper level), skewed variants with a 3x/30x jump, and 44000-cluster variants (plain, and 'chunk-tail' with a key-space jump 1/3 clusters before every chunk boundary over a zig-zag background) whose upper levels are built by the chunked builder; long-run family: a duplicate run from around a chunk start to around a chunk end, every start/end offset";
     }
 
+    if (asan_quick) std::stable_sort(tasks.begin(), tasks.end(), [](const Task &a, const Task &b) { return (a.kind != 0) > (b.kind != 0); });   // few large-input cases first
     run.run_tasks(tasks.size(), [&](uint64_t ti) {
         const Task &t = tasks[ti];
         auto &e = reg[t.cfg];
